@@ -408,5 +408,22 @@ func instrument(src string) string {
 			out = append(out, fmt.Sprintf("\thit(%q)", kind[recv]+"."+meth))
 		}
 	}
+	// the list of all keys, for the vacuity check of C14
+	seen := map[string]bool{}
+	var keys []string
+	for _, l := range out {
+		if strings.HasPrefix(l, "\thit(\"") {
+			k := strings.TrimSuffix(strings.TrimPrefix(l, "\thit(\""), "\")")
+			if !seen[k] {
+				seen[k] = true
+				keys = append(keys, k)
+			}
+		}
+	}
+	out = append(out, "", "// AllAPIKeys lists every (generated ark type, method) pair the adapters can call.", "var AllAPIKeys = []string{")
+	for _, k := range keys {
+		out = append(out, fmt.Sprintf("\t%q,", k))
+	}
+	out = append(out, "}", "")
 	return strings.Join(out, "\n")
 }
